@@ -47,3 +47,7 @@ chk('C05','exploration',
  'Invariant monitors at quiescent points: after every call of long sequential histories with aliasing-biased and invalid operands (root, ., .., empty, ancestor/descendant pairs, multiply-linked destinations, unclean spellings, open handles) on MemFS and OrefaFS, Linux- and Windows-typed, a public-API checker (bounded walk, sorted duplicate-free listings, listed <=> Lstat, Nlink == number of SameFile paths, links agree on content/size/mode/owner), an internal checker through the verif hook (node graph / path index vs stored link counters) and a frame monitor (failed calls change nothing, successful calls change only a footprint computed in the pre-state) are evaluated. The same checkers run at the end of every schedule of C06.',
  'directory link counts not checked; composites may leave partial effects on failure; RemoveAll excepted as documented',
  'structural invariant hooks + before/after frame monitor','DESIGN.md §5 C05')
+chk('C06','exploration',
+ 'Forced schedules at the lock hook: 2-3 goroutines x 1-2 primitive mutating calls on overlapping names (each on its own Sub view of one MemFS, or sharing one OrefaFS) are executed under a deterministic scheduler that serialises the goroutines and chooses who runs at every lock acquisition and call boundary: all schedules with <= 2 (quick) / 3 (thorough) preemptions up to a cap, then random schedules. Every execution is judged against all sequential orders of the same calls that respect program order and the observed real-time order, run on a fresh instance of the same implementation (results vector + final snapshot), the C05 public and internal invariants are evaluated at the end of every schedule, and concurrent CreateTemp/MkdirTemp must return distinct names.',
+ 'interleavings at lock-acquisition granularity (complete for code whose shared accesses are under its locks - C08 checks that); programs of at most 3 goroutines x 2 calls; composites are not used as single calls',
+ 'deterministic lock-hook scheduler (preemption-bounded systematic + random) with self-replay linearizability oracle','DESIGN.md §5 C06, Appendix D')
